@@ -189,12 +189,37 @@ type hsHist struct {
 	space   int
 	maxT    uint64
 	forged  []uint64 // payload numbers that are altered copies of a captured genuine stage 1
+	certs   string   // which certificates the node holds / initiating version
+	v4only  bool     // the node holds a v1 certificate only: it cannot initiate to IPv6 addresses, the peers are IPv4
 }
 
 func newHsHist(c *hx.Ctx, my []uint64, pref bool, space int) *hsHist {
-	w := nebula.VerifHSNewWorld(nebula.VerifHSConfig{MyAddrs: my, Preferred: pref})
-	return &hsHist{c: c, w: w, my: my, pref: pref, infos: map[uint64]nebula.VerifHSInfo{}, tunnels: map[uint64]nebula.VerifHSTunnel{},
+	return newHsHistCerts(c, nebula.VerifHSConfig{MyAddrs: my, Preferred: pref}, space)
+}
+
+// newHsHistCerts: the node's certificates are given by cfg (v1 only / v2 only / both, initiating version); the model's
+// own-address set is every address of every certificate the node holds, the node's own tables are built by pki.go.
+func newHsHistCerts(c *hx.Ctx, cfg nebula.VerifHSConfig, space int) *hsHist {
+	w := nebula.VerifHSNewWorld(cfg)
+	my, pref := w.OwnAddrs(), cfg.Preferred
+	h := &hsHist{certs: hsCertsLabel(cfg), c: c, w: w, my: my, pref: pref, infos: map[uint64]nebula.VerifHSInfo{}, tunnels: map[uint64]nebula.VerifHSTunnel{},
 		blocked: map[uint64][]uint64{}, feat: map[string]bool{}, space: space}
+	h.v4only = cfg.NoV2
+	return h
+}
+
+func hsCertsLabel(cfg nebula.VerifHSConfig) string {
+	s := "v1+v2"
+	switch {
+	case cfg.NoV2:
+		s = "v1"
+	case cfg.NoV1:
+		s = "v2"
+	}
+	if cfg.InitiateV1 {
+		return s + "/init1"
+	}
+	return s + "/init2"
 }
 
 func (h *hsHist) addPeer(version int, addrs []nebula.VerifHSPeerAddr) int {
@@ -507,13 +532,19 @@ func (h *hsHist) isMine(a uint64) bool {
 	return false
 }
 
-func (h *hsHist) poolAddr() uint64 {
-	for {
-		a := hsPool[h.c.Intn(len(hsPool))]
-		if !h.isMine(a) {
-			return a
+func (h *hsHist) pool() []uint64 {
+	var r []uint64
+	for _, a := range hsPool {
+		if !h.isMine(a) && !(h.v4only && a >= 1000) {
+			r = append(r, a)
 		}
 	}
+	return r
+}
+
+func (h *hsHist) poolAddr() uint64 {
+	p := h.pool()
+	return p[h.c.Intn(len(p))]
 }
 
 func (h *hsHist) makePeers() {
@@ -540,7 +571,7 @@ func (h *hsHist) makePeers() {
 	// a peer whose certificate overlaps the hot peer's first address at a non-primary index: a smaller address first
 	if first := h.peers[0].addrs[0]; first > 3 && first < 1000 {
 		h.addPeer(2, hsAs(3, first))
-	} else if first >= 1000 {
+	} else if first >= 1000 && !h.isMine(4) {
 		h.addPeer(2, hsAs(4, first))
 	}
 	// peers claiming one of my addresses, at every position of the certificate: alone, first, in the middle, last.
@@ -548,10 +579,7 @@ func (h *hsHist) makePeers() {
 	// addresses: smaller ones come before mine, larger ones after.
 	for _, m := range h.my {
 		var smaller, larger []uint64
-		for _, a := range hsPool {
-			if h.isMine(a) {
-				continue
-			}
+		for _, a := range h.pool() {
 			if (a < 1000) == (m < 1000) && a < m || (a < 1000 && m >= 1000) {
 				smaller = append(smaller, a)
 			} else {
@@ -758,7 +786,7 @@ func (h *hsHist) emit(cw *hx.CaseWriter, label string) {
 		peers = append(peers, p.addrs)
 	}
 	cw.Add(hx.App("CHs", h.cfgLit(), hx.List(h.steps), hsDumpLit(h.prev)), kind, n >= 2,
-		map[string]any{"my": h.my, "preferred": h.pref, "peers": peers, "ops": h.ops})
+		map[string]any{"my": h.my, "certificates": h.certs, "preferred": h.pref, "peers": peers, "ops": h.ops})
 }
 
 // ---- fixed histories (corpus / boundaries), emitted first ---------------------------------------------
@@ -919,13 +947,13 @@ func hsCorpus(c *hx.Ctx, cw *hx.CaseWriter) {
 // every position - alone, first, in the middle, last - next to addresses of their own; each is tried on the responder
 // path (stage 1) and on the initiator path (stage 2 for a handshake started to one of the certificate's other
 // addresses); then a certificate that overlaps another peer's address at a non-primary index.
-func hsSelfCorpus(c *hx.Ctx, cw *hx.CaseWriter) {
+func hsSelfCorpus(c *hx.Ctx, cw *hx.CaseWriter, wcfg nebula.VerifHSConfig, label string) {
 	certs := [][]uint64{
 		{5}, {5, 8}, {3, 5, 8}, {3, 5}, {3, 4, 5}, // my IPv4 address: alone, first, middle, last, last of three
 		{1001}, {1001, 1003}, {6, 1001, 1003}, {6, 1001}, {3, 8, 1001}, // my IPv6 address: alone, first of the IPv6 part, middle, last
 		{3, 5, 1001}, // both of mine
 	}
-	h := newHsHist(c, []uint64{5, 1001}, false, 60)
+	h := newHsHistCerts(c, wcfg, 60)
 	good := h.addPeer(2, hsAs(3, 1004))
 	h.opStage1(h.newPkt(good, 1, 5), 1, []uint32{10}) // an ordinary tunnel to compare with: [3; 1004]
 	idx := uint32(20)
@@ -954,7 +982,7 @@ func hsSelfCorpus(c *hx.Ctx, cw *hx.CaseWriter) {
 	h.opStage1(h.newPkt(over, 4, 1), 1, []uint32{idx})   // address 4 is new: installed although older than the tunnel holding 1004
 	h.opStage1(h.newPkt(good, 5, 6), 1, []uint32{idx + 1}) // the first peer again: primary of 3 and 1004
 	h.opStage1(h.newPkt(over, 6, 2), 1, []uint32{idx + 2})
-	h.emit(cw, "corpus-own-address-positions")
+	h.emit(cw, label)
 }
 
 func runHsmgr(c *hx.Ctx, check string) {
@@ -964,14 +992,27 @@ func runHsmgr(c *hx.Ctx, check string) {
 		hsForgedWitness(c).emitForged(cw, "ix-responder-unauthenticated-msg1")
 	}
 	hsCorpus(c, cw)
-	hsSelfCorpus(c, cw)
+	// the node holds a v1 certificate [5] and a v2 certificate [5; 1001] (the IPv6 address is certified by the v2 one
+	// only) and initiates with version 2 / with version 1 (the default of pki.initiating_version); and a v2-only node
+	hsSelfCorpus(c, cw, nebula.VerifHSConfig{MyAddrs: []uint64{5, 1001}}, "corpus-own-address-positions")
+	hsSelfCorpus(c, cw, nebula.VerifHSConfig{MyAddrs: []uint64{5, 1001}, InitiateV1: true}, "corpus-own-address-positions-init-v1")
+	hsSelfCorpus(c, cw, nebula.VerifHSConfig{MyAddrs: []uint64{5, 1001}, NoV1: true}, "corpus-own-address-positions-v2-only")
 	for i := 0; i < c.N; i++ {
 		my := [][]uint64{{1}, {1, 2}, {5}, {5, 7}, {5, 1001}, {4, 1001}, {5, 7, 1001}}[c.Intn(7)]
+		// the certificates the node holds: v1 + v2 (the v2 one with extra addresses when there are several), v2 only,
+		// v1 only (one IPv4 address), and which version it initiates with
+		wcfg := nebula.VerifHSConfig{MyAddrs: my, Preferred: c.Chance(0.5), InitiateV1: c.Chance(0.5)}
+		switch r := c.Intn(10); {
+		case r < 2:
+			wcfg.NoV1 = true
+		case r < 3:
+			wcfg.NoV2 = true
+		}
 		space := 40
 		if c.Chance(0.3) {
 			space = 6 + c.Intn(8)
 		}
-		h := newHsHist(c, my, c.Chance(0.5), space)
+		h := newHsHistCerts(c, wcfg, space)
 		h.makePeers()
 		n := 35 + c.Intn(16)
 		for j := 0; j < n; j++ {
